@@ -78,7 +78,17 @@ def build(params):
 
 def gen_history(ro, nlines, proc_lines=()):
     cmds = []
-    style = ro.choice(('mixed', 'mixed', 'steps', 'nexts', 'breaks', 'dive', 'procbp'))
+    style = ro.choice(('mixed', 'mixed', 'steps', 'nexts', 'breaks', 'dive', 'procbp', 'dupbp'))
+    if style == 'dupbp':
+        # two breakpoints that resolve to one address (the same line twice, a
+        # line and the one before it, which may be blank or a comment), one of
+        # them deleted again: the other one must go on stopping `continue`
+        ln = ro.randint(2, max(2, nlines))
+        cmds += ['break %d' % ln, 'break %d' % ro.choice((ln, ln, ln - 1))]
+        cmds += [ro.choice(('continue', 'step', 'next')) for _ in range(ro.randint(0, 3))]
+        cmds.append('delbr %d' % ln)
+        cmds += ['continue'] * ro.randint(1, 4)
+        style = 'mixed'
     if style == 'procbp':
         # a breakpoint inside a procedure, then next / continue around calls to it
         if proc_lines:
